@@ -514,7 +514,7 @@ SUBS = [
     Sub('waiter', lambda tier: _waiter_case(), run_waiter, quick=600, thorough=5000,
         rule='nested structures holding up to 6 futures/coroutines mixed with plain values; a driver resolves the futures in a generated permutation; oracle: same structure '
              'and container types with every awaitable replaced by its result. non-trivial = >= 2 awaitables resolved out of creation order',
-        floor=0.2),
+        floor=0.05),      # the spec space is small: in the thorough tier most cases repeat earlier ones, so the distinct share is low
     EnumSub('waiter_all_orders', enum_waiter, run_waiter, chunks=16,
             rule='7 fixed structures with 3-6 awaitables x every completion order (exhaustive over the permutations)'),
 ]
